@@ -99,7 +99,7 @@ Section RT.
     unfold quoted, strip_quotes. rewrite aeq_refl. cbn [andb].
     assert (L : Nat.leb 2 (length (dq :: escape str ++ [dq])) = true).
     { apply Nat.leb_le. cbn [length]. rewrite app_length. cbn. lia. }
-    rewrite L. apply removelast_last.
+    rewrite L, last_last, aeq_refl. apply removelast_last.
   Qed.
 
   Lemma get_string_fine s t r str : Inv s -> ps_after s = t :: r -> shape_of t = (TString, quoted str) ->
